@@ -11,7 +11,7 @@
    is part of the statement; all others hold for every size. *)
 From Coq Require Import ZArith QArith List Bool Arith Lia.
 Import ListNotations.
-From Inf Require Import proofs.PermGlynnGenP.
+From Inf Require Import proofs.PermGlynnGenP proofs.PermGlynnGrayP proofs.PermQuickSpecP.
 From Inf Require Import model.PermM spec.PermS proofs.PermSpecP proofs.PermP proofs.PermQuickP
   proofs.PermGlynnP proofs.PermGlynn7P proofs.PermIdleP proofs.PermTieP proofs.PermBoundAP proofs.PermBoundBP proofs.PermBoundCP.
 Open Scope Q_scope.
@@ -230,7 +230,55 @@ Example C02_refinement_example :
 Proof. cbv zeta. repeat split; vm_compute; discriminate || reflexivity. Qed.
 
 (* ================================================================== *)
-(* 4. Glynn's formula = permanent, bounded size, symbolic entries        *)
+(* 3b. The staircase shortcut equals the specification, EVERY size        *)
+
+(* permanent of a 0/1 staircase matrix (row i has ones in its first k_i columns, rows in any
+   order): the product over the columns of D_c = (number of rows with a one in column c) - (n-1-c) *)
+Theorem C02_perm_staircase_product : forall n k, perm n (sW k) == qprod n (Dq n k).
+Proof. exact perm_staircase_product. Qed.
+Print Assumptions C02_perm_staircase_product.
+
+(* it is non-zero exactly under the column condition that quick_prob's theorems assume *)
+Theorem C02_perm_staircase_nonzero_iff : forall n ks, length ks = n -> (forall k, In k ks -> (k <= n)%nat) ->
+  (~ perm n (of_lists (stair01 n ks)) == 0 <->
+   forall c, (c < n)%nat -> (nzeros (col c (stair01 n ks)) <= c)%nat).
+Proof. exact perm_stair01_nonzero_iff. Qed.
+Print Assumptions C02_perm_staircase_nonzero_iff.
+
+(* quick_prob (the closed-form loop of REPEX_state.quick_prob) returns exactly the permanent
+   ratios W_ij perm(W minus i,j)/perm(W) on every 0/1 staircase block with non-zero permanent:
+   every size, rows in any order *)
+Theorem C02_quick_prob_eq_Pspec_staircase : forall n ks,
+  length ks = n -> (forall k, In k ks -> (k <= n)%nat) ->
+  ~ perm n (of_lists (stair01 n ks)) == 0 ->
+  forall i j, (i < n)%nat -> (j < n)%nat ->
+  mget (quick_prob (stair01 n ks)) i j == Pspec n (of_lists (stair01 n ks)) i j.
+Proof. exact quick_prob_eq_Pspec_staircase01. Qed.
+Print Assumptions C02_quick_prob_eq_Pspec_staircase.
+
+(* ... and on every block whose rows are constant on their support (one arbitrary non-zero weight
+   per path: the blocks inf_retis hands to quick_prob after its equal-or-zero test) *)
+Theorem C02_quick_prob_eq_Pspec_uniform_rows : forall n k (w : nat -> Q) arr,
+  stair_support n k arr ->
+  (forall i c, (i < n)%nat -> (c < n)%nat -> (c < k i)%nat -> mget arr i c == w i) ->
+  (forall c, (c < n)%nat -> (nzeros (col c arr) <= c)%nat) ->
+  forall i j, (i < n)%nat -> (j < n)%nat ->
+  mget (quick_prob arr) i j == Pspec n (of_lists arr) i j.
+Proof. exact quick_prob_eq_Pspec_uniform_rows. Qed.
+Print Assumptions C02_quick_prob_eq_Pspec_uniform_rows.
+
+(* ================================================================== *)
+(* 4. Glynn's formula = permanent                                        *)
+
+(* the Gray-code loop of fast_glynn_perm returns the permanent of EVERY rational n x n matrix,
+   every n >= 1 (proofs/PermGlynnGrayP.v: consecutive Gray codes differ in one bit, the loop
+   invariant, every sign vector is visited once) *)
+Theorem C02_fast_glynn_eq_perm : forall n M, (1 <= n)%nat -> square n M ->
+  exists p, fast_glynn_perm M = Some p /\ p == perm n (of_lists M).
+Proof. exact fast_glynn_eq_perm. Qed.
+Print Assumptions C02_fast_glynn_eq_perm.
+
+(* 4'. the earlier bounded versions (symbolic entries, field)              *)
 
 (* the Gray-code loop of fast_glynn_perm returns the permanent of EVERY rational n x n matrix,
    n <= 7 (proved on symbolic entries by field) *)
